@@ -2,6 +2,7 @@ package webdav
 
 import (
 	"context"
+	"crypto/sha256"
 	"fmt"
 	"io"
 	"os"
@@ -9,6 +10,8 @@ import (
 	"path/filepath"
 	"sort"
 	"strings"
+	"sync"
+	"sync/atomic"
 	"testing"
 
 	"golang.org/x/net/internal/zzverif/vx"
@@ -138,6 +141,70 @@ type c44State struct {
 	h    []*c44Handle
 	tree map[string]c44Ent // the (agreed) tree after the last operation
 	bad  error             // harness-side problem (temporary directory, ...)
+	key  [16]byte          // hash of the operation history so far
+	memo *c44Memo
+}
+
+// c44Memo remembers, per operation history, the observation that was made
+// (and compared) when that history was first executed. The engine rebuilds a
+// state by replaying its history on fresh objects; on such a replay the
+// operations are executed and their results compared again, but the expensive
+// re-reading of the native tree is replaced by the remembered observation.
+// Both file systems are deterministic, so this is transparent; a miss simply
+// falls back to a real observation.
+type c44Memo struct {
+	m sync.Map // [16]byte -> *c44Snap
+	n atomic.Int64
+}
+
+type c44Snap struct {
+	tree map[string]c44Ent // never mutated after creation
+	h    []c44HSnap
+}
+
+type c44HSnap struct {
+	open  bool
+	where string
+	pos   int64
+	stale bool
+}
+
+func c44Key(prev [16]byte, op c44Op) [16]byte {
+	h := sha256.New()
+	h.Write(prev[:])
+	h.Write([]byte(op.String()))
+	var k [16]byte
+	copy(k[:], h.Sum(nil))
+	return k
+}
+
+func (s *c44State) snap() *c44Snap {
+	sn := &c44Snap{tree: s.tree, h: make([]c44HSnap, len(s.h))}
+	for k, h := range s.h {
+		if h != nil {
+			sn.h[k] = c44HSnap{true, h.where, h.pos, h.stale}
+		}
+	}
+	return sn
+}
+
+// load installs a remembered observation; false if it does not fit the handles.
+func (s *c44State) load(sn *c44Snap) bool {
+	if len(sn.h) != len(s.h) {
+		return false
+	}
+	for k, h := range s.h {
+		if (h != nil) != sn.h[k].open {
+			return false
+		}
+	}
+	s.tree = sn.tree
+	for k, h := range s.h {
+		if h != nil {
+			h.where, h.pos, h.stale = sn.h[k].where, sn.h[k].pos, sn.h[k].stale
+		}
+	}
+	return true
 }
 
 func c44OK(err error) string {
@@ -331,7 +398,11 @@ func c44Observe(w *vx.W, s *c44State, op c44Op, sig string) bool {
 		}
 		h.where = iw
 		if h.isDir {
-			if !h.stale && (iw == "" || !c44SameListing(h.listing, c44Listing(rt, iw))) {
+			// Listing is compared only while the directory is still where it was
+			// opened and unchanged: POSIX leaves readdir after a modification
+			// unspecified, and os.File.Readdir lstats "<name it was opened
+			// with>/<entry>", so it silently drops entries once the directory moved.
+			if !h.stale && (iw != h.opened || !c44SameListing(h.listing, c44Listing(rt, iw))) {
 				h.stale = true
 			}
 			continue
@@ -448,10 +519,13 @@ func c44Close(s *c44State) {
 	}
 }
 
-// c44RenameExcluded: renaming onto an existing, different entry is OS-specific
-// by the FileSystem contract and is not compared.
+// c44RenameExcluded: renaming onto an existing entry (including an existing
+// entry onto itself: Go's os.Rename refuses that for directories with EEXIST
+// and allows it for files) is OS-specific by the FileSystem contract and is
+// not compared. Renames involving the root or going into the source's own
+// subtree stay enabled: they must fail everywhere.
 func c44RenameExcluded(tree map[string]c44Ent, src, dst string) bool {
-	if src == dst || strings.HasPrefix(dst, src+"/") || src == "/" || dst == "/" {
+	if strings.HasPrefix(dst, src+"/") || src == "/" || dst == "/" {
 		return false
 	}
 	_, sok := tree[src]
@@ -642,7 +716,7 @@ func c44Apply(w *vx.W, s *c44State, op c44Op) bool {
 				w.Failf(sig+"/"+c44Pair(ie, re), "%v: memFS (%d,%v), native (%d,%v); %s", op, in, ie, rn, re, before)
 				return false
 			}
-			sig = "C44/Write/" + detail + "/" + h.mode
+			sig = "C44/Write/" + detail + "/" + c44Writable(h.mode)
 			if in != rn {
 				w.Failf(sig+"/result-differs:count", "%v: memFS wrote %d, native %d; %s", op, in, rn, before)
 				return false
@@ -664,7 +738,7 @@ func c44Apply(w *vx.W, s *c44State, op c44Op) bool {
 				w.Failf(sig+"/"+c44Pair(ie, re), "%v: memFS (%d,%v), native (%d,%v); %s", op, in, ie, rn, re, before)
 				return false
 			}
-			sig = "C44/Read/" + detail + "/" + h.mode
+			sig = "C44/Read/" + detail + "/" + c44Writable(h.mode)
 			if in != rn || string(ib[:max(in, 0)]) != string(rb[:max(rn, 0)]) {
 				w.Failf(sig+"/result-differs:bytes", "%v: memFS read %d %q, native %d %q; %s", op, in, ib[:max(in, 0)], rn, rb[:max(rn, 0)], before)
 				return false
@@ -750,14 +824,30 @@ func c44Apply(w *vx.W, s *c44State, op c44Op) bool {
 		}
 		return true
 	}()
+	key := c44Key(s.key, op)
 	if ok {
-		ok = c44Observe(w, s, op, sig)
+		if sn, hit := s.memo.m.Load(key); hit && s.load(sn.(*c44Snap)) {
+			// replay of a history that was executed, observed and compared before
+		} else if ok = c44Observe(w, s, op, sig); ok && s.memo.n.Load() < 6_000_000 {
+			s.memo.m.Store(key, s.snap())
+			s.memo.n.Add(1)
+		}
 	}
+	s.key = key
 	if s.bad != nil {
 		w.Ctx().Cap(fmt.Sprintf("harness problem (branch skipped): %v", s.bad))
 		return false
 	}
 	return ok
+}
+
+// c44Writable is the coarse access class used in signatures of value/state
+// divergences (the exact mode is used for success/failure divergences).
+func c44Writable(mode string) string {
+	if mode == "rdonly" {
+		return "rdonly"
+	}
+	return "writable"
 }
 
 func c44HKind(h *c44Handle) string {
@@ -845,10 +935,11 @@ func c44Run(c *vx.Ctx, base string, g c44Cfg) {
 		}
 	}
 	c.Note(g.part+".alphabet", fmt.Sprintf("paths=%q flags=%v handles=%d write=%q read=%v seek=%v x {start,current,end} readdir=%v depth=%d seeds=%d ops=%d", g.paths, g.flags, g.maxH, g.write, g.read, g.seek, g.rdir, g.depth, max(len(g.seeds), 1), len(ops)))
+	memo := &c44Memo{}
 	vx.Seq(c, vx.SeqSpec[*c44State, c44Op]{
 		Part: g.part,
 		New: func() *c44State {
-			s := &c44State{h: make([]*c44Handle, g.maxH), tree: map[string]c44Ent{"/": {dir: true}}}
+			s := &c44State{h: make([]*c44Handle, g.maxH), tree: map[string]c44Ent{"/": {dir: true}}, memo: memo}
 			tmp, err := os.MkdirTemp(base, "c")
 			if err != nil {
 				s.bad = err
@@ -878,7 +969,7 @@ func TestVerif_C44(t *testing.T) {
 			allFlags = append(allFlags, f.name)
 		}
 		c.Rule("differential breadth-first search with state deduplication: every operation sequence up to the stated depth (beyond each seed prefix) over Mkdir/OpenFile(7 flag sets)/RemoveAll/Stat/Rename on a small namespace (top-level, nested, a '..' alias; a name becomes an 'under-file' path when its parent is a file) and Write/Read/Seek/Readdir/Stat/Close on up to 2 open handles is applied to NewMemFS() and to Dir(fresh temporary directory); compared after every operation: success vs failure, byte counts and bytes read, seek offsets, FileInfo kind/size/name, Readdir counts/names/kinds, the complete trees (names, kinds, file contents; memFS read white-box, native tree read with os.ReadDir/ReadFile), the identity (current path or unlinked) and offset of every open handle; state = tree + handles (node, access mode, offset, entries consumed); a divergence prunes the branch; non-trivial = operation applied to both and compared")
-		c.Assume("not compared (latitude of the FileSystem contract / POSIX): Rename onto an existing different entry (disabled), permission bits and times, error identities (only nil vs non-nil), O_APPEND/O_SYNC, O_RDONLY|O_TRUNC, zero-length Read, Seek on directory handles, Readdir on a handle whose directory changed after it was opened, which entries a partial Readdir returns (only their number, membership and non-repetition), sizes of directories, the name of the root, use of a handle after Close")
+		c.Assume("not compared (latitude of the FileSystem contract / POSIX): Rename onto an existing different entry (disabled), permission bits and times, error identities (only nil vs non-nil), O_APPEND/O_SYNC, O_RDONLY|O_TRUNC, zero-length Read, Seek on directory handles, Readdir on a handle whose directory changed, moved or was removed after it was opened, which entries a partial Readdir returns (only their number, membership and non-repetition), sizes of directories, the name of the root, use of a handle after Close")
 		c.Assume("the reference is the os package on the host (Linux) through webdav.Dir; Dir itself is trusted here (C45 covers it); must-hold clauses (rename of/onto the root, removal of the root, rename of a directory into its own subtree fail) are checked on memFS regardless of the reference")
 
 		paths := []string{"/", "/a", "/b", "/a/x", "/a/../b"}
@@ -888,7 +979,8 @@ func TestVerif_C44(t *testing.T) {
 			write: []string{"", "ab", "cdefg"}, read: []int{1, 10},
 			seek: []int64{-1, 0, 1, 10}, rdir: []int{-1, 0, 1},
 			depth: vx.Pick(c, 3, 5),
-			seeds: [][]c44Op{nil, {mk("/a"), mk("/b")}},
+			seeds: [][]c44Op{nil, {mk("/a"), mk("/b")},
+				{mk("/a"), {K: "open", P: "/a/x", F: "RDWR|CREATE"}, {K: "write", H: 0, D: "cdefg"}, {K: "close", H: 0}}},
 		})
 	})
 }
